@@ -241,6 +241,19 @@ func (rs *runState) build(mode string) error {
 	mc := modes[mode]
 	bin := filepath.Join(rs.buildDir, "vworker-"+mode)
 	args := []string{"build", "-tags", mc.Tags}
+	if alt := os.Getenv("VERIF_REPO"); alt != "" {
+		// self-test aid only: build against a scratch copy of the repository
+		// (seeded mutants) instead of /repo.  Registered commands never set it.
+		mf := filepath.Join(rs.buildDir, "go.mod")
+		if _, err := os.Stat(mf); err != nil {
+			gm, _ := os.ReadFile(filepath.Join(verifDir, "harness", "go.mod"))
+			gm = bytes.Replace(gm, []byte("=> /repo"), []byte("=> "+alt), 1)
+			os.WriteFile(mf, gm, 0o644)
+			gs, _ := os.ReadFile(filepath.Join(verifDir, "harness", "go.sum"))
+			os.WriteFile(filepath.Join(rs.buildDir, "go.sum"), gs, 0o644)
+		}
+		args = append(args, "-modfile="+mf)
+	}
 	args = append(args, mc.Flags...)
 	args = append(args, "-o", bin, "./cmd/vworker")
 	cmd := exec.Command("go", args...)
@@ -914,7 +927,9 @@ func main() {
 	}
 	os.MkdirAll(filepath.Join(verifDir, "evidence"), 0o755)
 	eb, _ := json.MarshalIndent(ev, "", " ")
-	os.WriteFile(filepath.Join(verifDir, "evidence", prop+".json"), eb, 0o644)
+	if os.Getenv("VERIF_NOEVIDENCE") == "" {
+		os.WriteFile(filepath.Join(verifDir, "evidence", prop+".json"), eb, 0o644)
+	}
 
 	for _, s := range rs.inconclusive {
 		fmt.Println("INCONCLUSIVE:", oneLine(s, 400))
